@@ -64,7 +64,7 @@ def required_cells(tier):
 
 KINDS = ['emit', 'emit', 'twice', 'twice', 'val', 'pv', 'pv', 'assign', 'for', 'multi', 'valml', 'semi', 'semival', 'quiet',
          'blankout', 'wsout', 'emitblank', 'pvblank', 'aval', 'apv', 'acomp', 'coro_obj', 'noeol', 'noeol', 'assignprint', 'assignprint',
-         'strval1', 'dictval1', 'bytesval', 'printq1', 'pvsemi_str', 'pvsemi_comment', 'valsemi_str']
+         'strval1', 'dictval1', 'bytesval', 'printq1', 'pvsemi_str', 'pvsemi_comment', 'valsemi_str', 'dotsout', 'dotsout']
 
 
 def out_to_want(text):
@@ -113,6 +113,9 @@ def gen_program(rng):
         elif kind == 'assignprint':
             # a statement that prints but has no value of its own
             S.append(St(['y%d = emit(%d)' % (k, k)], kind, k))
+        elif kind == 'dotsout':
+            # output that itself starts with three dots, the wildcard switched off for this statement: the dots are text
+            S.append(St(['print("...d%d", end=quiet(%d) or "\\n")  # xdoctest: -ELLIPSIS' % (k, k)], kind, k, is_expr=True))
         elif kind == 'pvsemi_str':
             # a semicolon that separates nothing: inside a string literal / a comment of the final expression statement
             S.append(St(['(";", pv(%d))[1]' % k], kind, k, is_expr=True))
